@@ -1,6 +1,7 @@
 package sessrep
 
 import (
+	"errors"
 	"fmt"
 	"math/rand"
 	"strings"
@@ -133,7 +134,14 @@ func Pipelined(g *Graph, srv *drv.Server, path []*Edge, mode string, rng *rand.R
 		c.CloseWrite()
 	}
 	if !c.WaitIdle() {
-		return nil, nil, fmt.Errorf("server not idle after pipelined path %v\n%s", cmds, drv.GoroutineDump("go-smtp"))
+		err := c.NotIdleError(fmt.Sprintf("after pipelined path %v", cmds))
+		var stuck *drv.StuckError
+		if errors.As(err, &stuck) {
+			return []evid.Div{{Prop: "C04", Key: "hang:pipelined:" + stuck.Where,
+				Msg:    fmt.Sprintf("%s path %v: the server stopped replying - %v\n%s", mode, cmds, stuck, stuck.Dump),
+				Replay: map[string]interface{}{"engine": "session-pipelined", "cfg": g.Cfg, "mode": mode, "path": labels, "commands": cmds, "sent": string(wireOut)}}}, nil, nil
+		}
+		return nil, nil, err
 	}
 	out, _ := c.Output()
 	calls := be.Since(mark)
